@@ -9,7 +9,7 @@ trap 'git -C /repo worktree remove --force "$W" >/dev/null 2>&1' EXIT
 git -C "$W" apply /verif/benign/$ID/patch.diff || { echo "$ID: patch does not apply"; exit 2; }
 (cd "$W" && go build ./... && go test -vet=off -count=1 ./... >/dev/null 2>&1) || echo "$ID: does not build or fails the suite"
 for P in C01 C03 C08 C16 C18; do
-  OUT=$(cd /verif && VERIF_REPO="$W" ./check.sh "$P" quick 2>&1); rc=$?
+  OUT=$(cd "${VERIF_DIR:-/verif}" && VERIF_REPO="$W" ./check.sh "$P" quick 2>&1); rc=$?
   echo "$ID $P exit=$rc $(echo "$OUT" | grep -A1 '^VIOLATION' | grep -o 'class=[a-z-]* signature=[^ ]*' | sort | uniq -c | head -5 | tr '\n' ' ')"
   [ $rc -eq 2 ] && echo "$OUT" | grep -B2 -A6 "INFRA" | cut -c1-300 | sed 's/^/    !! /' | head -14
 done
